@@ -25,8 +25,16 @@ for e in kf["findings"]:
     props = [e["property"]] + e.get("also", [])
     r = subprocess.run(["git", "-C", WT, "apply", "-R", diff], capture_output=True, text=True)
     if r.returncode != 0:
-        res.append((h, props[0], "cannot-apply", r.stderr.strip()[:100]))
-        continue
+        # a later repair touched neighbouring lines: try a three-way reverse application
+        subprocess.run(["git", "-C", WT, "checkout", "--", "."], check=True)
+        r = subprocess.run(["git", "-C", WT, "apply", "-R", "--3way", diff], capture_output=True, text=True)
+        st = subprocess.run(["git", "-C", WT, "status", "--short"], capture_output=True, text=True).stdout
+        if r.returncode != 0 or any(l.startswith(("U", "AA", "DD")) or l[1:2] == "U" for l in st.split("\n")):
+            subprocess.run(["git", "-C", WT, "reset", "-q", "--hard"], check=True)
+            res.append((h, props[0], "cannot-apply", "the reverse of this repair no longer applies (a later repair rewrote the same lines)"))
+            print(*res[-1], flush=True)
+            continue
+        subprocess.run(["git", "-C", WT, "reset", "-q"], check=True)
     try:
         caught = None
         for p in props:
@@ -42,5 +50,6 @@ for e in kf["findings"]:
         subprocess.run(["git", "-C", WT, "checkout", "--", "."], check=True)
     print(*res[-1], flush=True)
 subprocess.run(["git", "-C", "/repo", "worktree", "remove", "--force", WT])
-missed = [r for r in res if not r[2].startswith("CAUGHT")]
-print("caught %d / %d" % (len(res) - len(missed), len(res)))
+missed = [r for r in res if r[2] == "MISSED"]
+na = [r for r in res if r[2] == "cannot-apply"]
+print("caught %d / %d (%d missed, %d reverse patches no longer apply)" % (len(res) - len(missed) - len(na), len(res), len(missed), len(na)))
